@@ -22,8 +22,9 @@ var _ policy.Recipient
 
 // Ghost output of the session's text connection (owned by the assumed contract of
 // (*textproto.Conn).PrintfLine): number of lines written and the last line.
-func ghost_nlines(w *textproto.Writer) int      { panic("ghost") }
-func ghost_lastline(w *textproto.Writer) string { panic("ghost") }
+func ghost_nlines(w *textproto.Writer) int       { panic("ghost") }
+func ghost_lastline(w *textproto.Writer) string  { panic("ghost") }
+func ghost_lastBlock(c *textproto.Reader) []byte { panic("ghost") }
 
 // The most recent answer of a before-hook broker (ghost, recorded by the contract of Emit).
 func ghost_lastEmit(eb *extension.EventBroker[event.SMTPSession, event.SMTPResponse]) *event.SMTPResponse {
@@ -85,9 +86,12 @@ func ghost_lastEmit(eb *extension.EventBroker[event.SMTPSession, event.SMTPRespo
 //@ func (*Session).extSession
 //@   requires s.Server != nil && forall k int :: { s.recipients[k] } 0 <= k && k < len(s.recipients) ==> s.recipients[k] != nil
 //@   ensures ret != nil && vcFresh(ret) && vcFresh(ret.To)
-//@   loop 1: invariant 0 <= ridx && ridx <= len(s.recipients) && vcFresh(to)
+//@   ensures[copiesOnly C17] (ret.From != nil ==> vcFresh(ret.From)) && len(ret.To) == len(s.recipients) &&
+//@      forall k int :: { ret.To[k] } 0 <= k && k < len(ret.To) ==> ret.To[k] != nil && vcFresh(ret.To[k])
+//@   loop 1: invariant 0 <= ridx && ridx <= len(s.recipients) && vcFresh(to) && len(to) == ridx
+//@   loop 1: invariant forall k int :: { to[k] } 0 <= k && k < len(to) ==> to[k] != nil && vcFresh(to[k])
 //@   loop 1: decreases len(s.recipients) - ridx
-//@   serves C03
+//@   serves C03 C17
 
 //@ func (*Session).parseArgs
 //@   requires s.Server != nil
@@ -169,7 +173,9 @@ func ghost_lastEmit(eb *extension.EventBroker[event.SMTPSession, event.SMTPRespo
 //@ func (*Session).dataHandler
 //@   requires I_smtp(s) && s.state == DATA
 //@   modifies s.state, s.from, s.recipients, s.sendError, ghost_nlines(&s.text.Writer), ghost_lastline(&s.text.Writer),
-//@      ghost_ndeliver(s.manager), ghost_dlvFrom(s.manager), ghost_dlvRcpts(s.manager), ghost_dlvContent(s.manager)
+//@      ghost_ndeliver(s.manager), ghost_dlvFrom(s.manager), ghost_dlvRcpts(s.manager), ghost_dlvContent(s.manager), ghost_lastBlock(&s.text.Reader)
+//@   ensures[blockUnchanged C02] message.Ghost_ndeliver(s.manager) != old(message.Ghost_ndeliver(s.manager)) ==>
+//@      vcSameSlice(message.Ghost_dlvContent(s.manager), ghost_lastBlock(&s.text.Reader))
 //@   ensures[state] I_smtp(s) && (s.state == QUIT || (s.state == READY && s.from == nil && len(s.recipients) == 0))
 //@   ensures[once C01] message.Ghost_ndeliver(s.manager) == old(message.Ghost_ndeliver(s.manager)) || message.Ghost_ndeliver(s.manager) == old(message.Ghost_ndeliver(s.manager)) + 1
 //@   ensures[envelope C01] message.Ghost_ndeliver(s.manager) != old(message.Ghost_ndeliver(s.manager)) ==>
